@@ -615,7 +615,7 @@ func randomCase(r *hxlib.Run, mids []uint16, maxLen int) scase {
 func concurrent(r *hxlib.Run, seed uint64, mid uint16, workers, each int) {
 	r.Case()
 	R := hxlib.NewRand(seed)
-	t0 := int64(21_000_000_000 + R.Intn(1000000))
+	t0 := int64(21_000_000_000) + int64(R.Intn(1000000))
 	cur := t0
 	reads, rollbacks, left := 0, 0, 1
 	clk.log = nil
